@@ -784,6 +784,13 @@ func runController(c *core.Case) {
 					// the file number of this ref has been handed out again after a truncation: the ref is
 					// dangling from the caller's point of view and must not be used any more
 					continue
+				} else if emptiedWhilePending != "" && cur.covered {
+					// known finding truncate-resets-sequence-behind-first-write: the mapper restarted its
+					// file numbering at 1, so the file number of a truncated ref may already name a new,
+					// shorter file; reading through it faults (SIGBUS) instead of returning an error,
+					// which would take the monitor down with it
+					c.Count("reads_of_truncated_refs_skipped_after_sequence_reset", 1)
+					continue
 				}
 				call := h.now()
 				c.Logf("s%d read ref=%d (%d:%d)", s, ref, ref>>32, ref&0xffffffff)
@@ -853,7 +860,7 @@ func runController(c *core.Case) {
 		if r.IntN(3) == 0 {
 			// read everything once more before closing (the queue may still be working)
 			for _, ref := range known {
-				if cur := w.current(ref); cur == nil || cur.replaced {
+				if cur := w.current(ref); cur == nil || cur.replaced || (emptiedWhilePending != "" && cur.covered) {
 					continue
 				}
 				call := h.now()
